@@ -2,6 +2,7 @@ package graphql
 
 import (
 	"context"
+	"errors"
 
 	"github.com/graphql-go/graphql/gqlerrors"
 	"github.com/graphql-go/graphql/language/parser"
@@ -49,6 +50,9 @@ func Do(p Params) *Result {
 
 	extErrs, parseFinishFn := handleExtensionsParseDidStart(&p)
 	if len(extErrs) != 0 {
+		// the request is abandoned, but the extensions whose parse phase
+		// did start still get their finish call
+		extErrs = append(extErrs, parseFinishFn(errors.New("request abandoned: an extension failed in ParseDidStart"))...)
 		return &Result{
 			Errors: extErrs,
 		}
@@ -78,6 +82,7 @@ func Do(p Params) *Result {
 	// notify extensions about the start of the validation
 	extErrs, validationFinishFn := handleExtensionsValidationDidStart(&p)
 	if len(extErrs) != 0 {
+		extErrs = append(extErrs, validationFinishFn(extErrs)...)
 		return &Result{
 			Errors: extErrs,
 		}
